@@ -31,7 +31,7 @@ type Ev struct {
 }
 
 type PartSpec struct {
-	Grp     string `json:"grp"`            // "a": selected by the source condition, "b": not
+	Grp     string `json:"grp"`             // "a": selected by the source condition, "b": not
 	Empty   bool   `json:"empty,omitempty"` // registered in the tag index, no data ever written
 	Batches [][]Ev `json:"batches,omitempty"`
 	Hold    int    `json:"hold,omitempty"` // 1: somebody holds the partition during the runs, 2: exclusively locked
@@ -50,7 +50,7 @@ type Params struct {
 type Replay struct {
 	Kind  string     `json:"kind"`
 	Parts []PartSpec `json:"parts"`
-	PSeed uint64     `json:"pseed"`           // parameters are drawn from this seed relative to the observed layout ...
+	PSeed uint64     `json:"pseed"`            // parameters are drawn from this seed relative to the observed layout ...
 	P     *Params    `json:"params,omitempty"` // ... unless given explicitly (corpus cases)
 	Stmt  string     `json:"stmt,omitempty"`   // informational: the statement that was executed
 }
@@ -110,6 +110,16 @@ func (r *runner) query(q *api.QueryRequest) (*api.QueryResult, error) {
 		err = nil
 	}
 	return res, err
+}
+
+// exec runs an admin statement; a panic inside the server is an observation, not a harness failure
+func (r *runner) exec(q string) (out string, err error) {
+	defer func() {
+		if p := recover(); p != nil {
+			err = fmt.Errorf("panic: %v", p)
+		}
+	}()
+	return r.srv.Exec(q)
 }
 
 func dbg(a ...interface{}) {
@@ -308,6 +318,7 @@ func parsePos(pos string) (uint64, uint32, error) {
 }
 
 type outcome struct {
+	execErr    string // the statement failed or panicked
 	stmt       string
 	before     []PartObs
 	afterDry   []PartObs
@@ -389,10 +400,11 @@ func (r *runner) runCase(rp *Replay) (*outcome, error) {
 		if err := hold(); err != nil {
 			return nil, nil, err
 		}
-		out, err := r.srv.Exec(stmtOf(vc, o.p, dry))
+		out, err := r.exec(stmtOf(vc, o.p, dry))
 		release()
 		if err != nil {
-			return nil, nil, fmt.Errorf("%s: %v", stmtOf(vc, o.p, dry), err)
+			o.execErr = fmt.Sprintf("%s: %v", stmtOf(vc, o.p, dry), err)
+			out = "\n\n0 source(s) affected. \n"
 		}
 		ls, err := parseReport(out)
 		if err != nil {
@@ -534,9 +546,10 @@ func main() {
 			for _, rp := range corpus() {
 				jobs = append(jobs, job{rp, "corpus"})
 			}
+			root := seededRng(c.Seed)
 			n := c.N(300)
 			for i := 0; i < n; i++ {
-				r := c.Rng.Fork()
+				r := root.Fork()
 				jobs = append(jobs, job{genCase(r), "grid"})
 			}
 		}
@@ -665,4 +678,13 @@ func minInt(a, b int) int {
 		return a
 	}
 	return b
+}
+
+// seededRng: common.NewRng(seed) starts splitmix64 at seed*golden, so consecutive seeds give the same stream
+// shifted by one draw; hashing the seed first makes the streams of different seeds unrelated
+func seededRng(seed uint64) *Rng {
+	z := seed + 0x632BE59BD9B4E019
+	z = (z ^ (z >> 30)) * 0xBF58476D1CE4E5B9
+	z = (z ^ (z >> 27)) * 0x94D049BB133111EB
+	return NewRng(z ^ (z >> 31))
 }
